@@ -1,12 +1,12 @@
-"""X06 - beyond the listed properties: the token bucket's arithmetic without bounds (TokenBucketInd.tla, Apalache)."""
+"""X06 - beyond the listed properties: the token bucket's arithmetic without bounds (TokenBucketInd.tla, H2WindowInd.tla; Apalache)."""
 import os, shutil, subprocess
 import vlib
 
 
-def apalache(ctx, args, timeout=600):
-    shutil.copy(os.path.join(vlib.VERIF, "spec", "TokenBucketInd.tla"), ctx.work)
+def apalache(ctx, mod, args, timeout=600):
+    shutil.copy(os.path.join(vlib.VERIF, "spec", mod), ctx.work)
     try:
-        p = subprocess.run(["apalache-mc", "check", "--cinit=ConstInit"] + args + ["TokenBucketInd.tla"], cwd=ctx.work,
+        p = subprocess.run(["apalache-mc", "check", "--cinit=ConstInit"] + args + [mod], cwd=ctx.work,
                            capture_output=True, text=True, timeout=timeout)
     except (OSError, subprocess.TimeoutExpired) as e:
         raise vlib.Infra("apalache: %s" % e)
@@ -22,23 +22,29 @@ def run(ctx):
     ctx.rule = ("TokenBucketInd.tla: the reservation arithmetic of RateLimit.tla for any burst, rate, chunk size and time. Apalache "
                 "discharges Init => IndInv, IndInv /\\ Next => IndInv' and IndInv => Paid (paid <= burst + rate * now + debt), and "
                 "refutes the induction step of a weaker invariant (the step is not vacuous). TLC's bounded RateLimit check and the "
-                "conformance runs of C20 bind the same arithmetic to the code; this adds the unbounded half.")
-    steps = [("Init => IndInv", ["--init=Init", "--inv=IndInv", "--length=0"], True),
-             ("IndInv /\\ Next => IndInv'", ["--init=IndInit", "--inv=IndInv", "--length=1"], True),
-             ("IndInv => Paid", ["--init=IndInit", "--inv=Paid", "--length=0"], True),
-             ("WeakInv /\\ Next => WeakInv' (must fail)", ["--init=WeakInit", "--inv=WeakInv", "--length=1"], False)]
-    for name, args, want in steps:
-        got = apalache(ctx, args)
+                "conformance runs of C20 bind the same arithmetic to the code; this adds the unbounded half. H2WindowInd.tla does the same "
+                "for the window arithmetic of H2Relay.tla (stream and connection level): data and updates are passed on unchanged and "
+                "only after they were received, so the receiver never gets more than it granted (WithinGrant), for any sizes.")
+    steps = [("TokenBucketInd.tla", "Init => IndInv", ["--init=Init", "--inv=IndInv", "--length=0"], True),
+             ("TokenBucketInd.tla", "IndInv /\\ Next => IndInv'", ["--init=IndInit", "--inv=IndInv", "--length=1"], True),
+             ("TokenBucketInd.tla", "IndInv => Paid", ["--init=IndInit", "--inv=Paid", "--length=0"], True),
+             ("TokenBucketInd.tla", "WeakInv /\\ Next => WeakInv' (must fail)", ["--init=WeakInit", "--inv=WeakInv", "--length=1"], False),
+             ("H2WindowInd.tla", "Init => IndInv", ["--init=Init", "--inv=IndInv", "--length=0"], True),
+             ("H2WindowInd.tla", "IndInv /\\ Next => IndInv'", ["--init=IndInit", "--inv=IndInv", "--length=1"], True),
+             ("H2WindowInd.tla", "IndInv => WithinGrant", ["--init=IndInit", "--inv=WithinGrant", "--length=0"], True),
+             ("H2WindowInd.tla", "WeakInv => WithinGrant (must fail)", ["--init=WeakInit", "--inv=WithinGrant", "--length=0"], False)]
+    for mod, name, args, want in steps:
+        got = apalache(ctx, mod, args)
         ctx.evaluations += 1
-        ctx.nontrivial.add(name)
+        ctx.nontrivial.add(mod + ": " + name)
         if got != want:
             if want:
-                ctx.violation("X06:" + name.split(" ")[0], {"obligation": name, "why": "Apalache found a counterexample"})
+                ctx.violation("X06:%s:%s" % (mod.split(".")[0], name.split(" ")[0]), {"module": mod, "obligation": name, "why": "Apalache found a counterexample"})
             else:
-                raise vlib.Infra("the weak invariant passed the induction step: the step is vacuous")
+                raise vlib.Infra("%s: the weak invariant passed: the obligation is vacuous" % mod)
         else:
             ctx.traces_ok += 1
-    ctx.sample({"obligations": [s[0] for s in steps]})
+    ctx.sample({"obligations": [s[0] + ": " + s[1] for s in steps]})
     ctx.exhaustive = True
 
 
